@@ -85,6 +85,13 @@ def tlc_jobs(tier):
         jobs[(name, "hist")] = ex.submit(S.impl_histories, S.consts(n, ops_hist, weighted), weighted)
     for inv in ("CountExact", "MaxTight"):
         jobs[("drift", inv)] = ex.submit(S.impl_drift, S.consts(3, 4, True), inv)
+    # inductiveness of the algorithm's invariants (history length unbounded), and a control: a property that is
+    # NOT inductive (max_weight_count is the multiplicity of the maximum) must be refuted by the same run
+    jobs[("ind", "weighted")] = ex.submit(S.impl_inductive, 3, True, 4 if tier == "quick" else 6)
+    jobs[("ind", "unweighted")] = ex.submit(S.impl_inductive, 4, False, 1)
+    jobs[("ind", "control")] = ex.submit(S.impl_inductive, 3, True, 3, ("CountExact",))
+    if tier != "quick":
+        jobs[("ind", "weighted-4")] = ex.submit(S.impl_inductive, 4, True, 3)
     # all TLC runs finish (and the threads are joined) before any process pool forks
     ex.shutdown(wait=True)
     return jobs
@@ -201,6 +208,27 @@ def algorithm_finding(chk, name, weighted, n, res):
     report(chk, found, {"mode": name, "consts": {"N": n, "weighted": weighted}, "tlc": res.violation})
 
 
+def inductive_part(chk, jobs):
+    for key in sorted(k for k in jobs if k[0] == "ind" and k[1] != "control"):
+        res = jobs[key].result()
+        chk.add_tlc("ListDictInd (%s): IndInv /\\ Next => IndInv' and the observable consequences, from EVERY state satisfying IndInv in the value box (one call of every kind)" % key[1], res)
+        if res.violation:
+            chk.violation("spec|ListDictInd|%s|%s" % (key[1], res.violation[:60]),
+                          "TLC: the conjunction of the algorithm's invariants is not inductive for the transcription of _ListDict_ (%s): %s" % (key[1], res.violation), {"mode": key[1]})
+        if res.distinct < 50:
+            raise common.MachineryFailure("vacuous inductiveness run (%s): %d states" % (key[1], res.distinct))
+        for a in ["Insert", "Remove", "Pick"] + (["Update", "Resum"] if key[1].startswith("weighted") else []):
+            if res.coverage.get(a, (0, 0))[1] == 0:
+                raise common.MachineryFailure("vacuous inductiveness run (%s): action %s never taken" % (key[1], a))
+    ctl = jobs[("ind", "control")].result()
+    chk.add_tlc("ListDictInd control: CountExact is not inductive and must be refuted", ctl)
+    if not ctl.violation:
+        raise common.MachineryFailure("non-vacuity control failed: the inductiveness run did not refute CountExact")
+    chk.note("ListDictInd: the invariants (list/position map consistent, weight keys = items, total = sum, max_weight an upper bound, positive when a weight is) are "
+             "inductive from every state in the value box, so they - and with them exact selection and total = sum - hold after histories of ANY length; "
+             "control: CountExact (not required) is refuted by the same run")
+
+
 def drift_notes(chk, jobs):
     """what the brute-force probe saw, now as TLC counterexamples (information only)"""
     for inv, text in (("CountExact", "max_weight_count is not the multiplicity of max_weight"),
@@ -251,6 +279,7 @@ def main(argv=None):
         for mode in plan(chk.tier):
             run_mode(chk, jobs, *mode)
         drift_notes(chk, jobs)
+        inductive_part(chk, jobs)
     finally:
         for f in jobs.values():
             f.cancel()
